@@ -549,7 +549,11 @@ Section EciesAcceptance.
       apply (dem_decrypt_iff _ _ _ _ Lkey Ds). exists iv. auto.
   Qed.
 
-  (* ---- symbolic binding ---- *)
+  (* ---- symbolic binding ----
+     SUPERSEDED by proofs/EciesBinding.v: both predicates below hold outright
+     (n = 0; dem_frame XCHACHA20_POLY1305 = []), see EciesBinding.old_hkdf_collision_trivial
+     and old_dem_key_collision_trivial; ecies_binding_kem_info is therefore vacuous and
+     no longer appears in props/C06.v. *)
   Definition hkdf_collision : Prop :=
     exists h ikm salt info ikm' salt' info' n, (ikm <> ikm' \/ salt <> salt' \/ info <> info') /\
       hkdf h ikm salt info n = hkdf h ikm' salt' info' n.
